@@ -3,11 +3,11 @@
 # import the confirmed ones into seeded/, run the quick check of its property for every imported change
 # that has no line in <results file> yet
 dir="$1"; res="$2"; touch "$res"
-for d in "$dir"/C*.out*/[mnpqr][0-9]; do
+for d in "$dir"/C*.out*/[mnpqrs][0-9]; do
   [ -f "$d/patch.diff" ] && [ -f "$d/demo.py" ] && [ ! -f "$d/verify.json" ] && echo "$d"
 done | xargs -r -P 4 -n 1 /verif/tools/verify_mutant.sh
 python3 /verif/tools/import_mutants.py "$dir"
-for d in "$dir"/C*.out*/[mnpqr][0-9]; do
+for d in "$dir"/C*.out*/[mnpqrs][0-9]; do
   [ -f "$d/verify.json" ] || continue
   id="$(basename $(dirname $d) | cut -c1-3)-$(basename $d)"
   [ -d /verif/seeded/$id ] || continue
